@@ -158,10 +158,38 @@ Theorem C15_rarest_prefers_rare : forall limit validf (prio : N -> Z) order,
 Proof. exact Proof.C15_pol.rarest_prefers_rare. Qed.
 Print Assumptions C15_rarest_prefers_rare.
 
+(* plugged into the manager: with the quota and the validity test of ANY state, what either
+   policy returns is accepted by the bookkeeping (so the oracle-style Reserve of the model
+   loses nothing) *)
+Theorem C15_reserve_default_accepted : forall c s p origin cands dup rnd k,
+  NoDup cands -> quota c s p origin = Z.of_nat k ->
+  legal c s p origin cands dup (default_select k (fun i => valid c s p i dup) cands rnd) = true.
+Proof. exact Proof.C15.reserve_default_accepted. Qed.
+Print Assumptions C15_reserve_default_accepted.
+
+Theorem C15_reserve_rarest_accepted : forall c s p origin cands dup order k,
+  NoDup order -> (forall x, In x order -> In x cands) -> quota c s p origin = Z.of_nat k ->
+  legal c s p origin cands dup (rarest_select k (fun i => valid c s p i dup) order) = true.
+Proof. exact Proof.C15.reserve_rarest_accepted. Qed.
+Print Assumptions C15_reserve_rarest_accepted.
+
 (* ---- executable form used on observed traces *)
 Theorem C15_check_sound : forall c ops, C15_check c ops (snd (run c init ops)) = true.
 Proof. exact Proof.C15_thm.check_sound. Qed.
 Print Assumptions C15_check_sound.
+
+(* the oracle's comparison is exact: same accept/reject flags, reports equal as multisets *)
+Theorem C15_check_meaning : forall c ops obs,
+  C15_check c ops obs = true <->
+  Forall2 (fun a b => match a, b with
+                      | OUnit, OUnit => True
+                      | ORes x, ORes y => x = y
+                      | OFailed x, OFailed y => Permutation x y
+                      | OPending x, OPending y => Permutation x y
+                      | _, _ => False
+                      end) (snd (srun c sinit ops)) obs.
+Proof. exact Proof.C15.check_meaning. Qed.
+Print Assumptions C15_check_meaning.
 
 (* ---- the code at the pinned commit (ClearPeer ejects only the first request of the peer
    per piece): after re-reserving an expired piece for the same peer and removing the peer,
